@@ -38,8 +38,8 @@ type HarnessCfg struct {
 	// overflow, time-out, fatal error) it is reported as a violation, else
 	// the path stays inconclusive.
 	ConfirmBounds bool
-	Tiers      string // "", "quick", "thorough": restrict harness to a tier
-	Note       string
+	Tiers         string // "", "quick", "thorough": restrict harness to a tier
+	Note          string
 }
 
 var harnessRe = regexp.MustCompile(`(?m)^//verif:harness\s+(\S+)(.*)$`)
